@@ -75,7 +75,7 @@ class Suite:
     def __init__(self, prop: str):
         self.prop = prop
         self.items: dict[str, Item] = {}
-        self.max_failures_per_item = 25
+        self.max_failures_per_item = 5000  # every failure is matched against KNOWN_FINDINGS; only the replay files are capped
         self.notes: list[str] = []
 
     # -- registration -----------------------------------------------------------------
